@@ -356,6 +356,8 @@ type histEnv struct {
 	shas   map[[32]byte]uint64
 	closed bool // closed by "closedb", to be opened again at its next use
 	txMu   sync.Mutex
+	heldMu sync.Mutex
+	held   []heldGet
 }
 
 func (e *histEnv) open() error {
@@ -381,6 +383,12 @@ func (e *histEnv) store(h int) (fs_db.Store, bool) {
 		return e.txs[h], true
 	}
 	return nil, false
+}
+
+type heldGet struct {
+	key  string
+	data []byte
+	sum  [32]byte
 }
 
 // reqCtx: case option ctx=req
@@ -531,6 +539,26 @@ func (e *histEnv) step(t []string) (res string) {
 			return errClass(err)
 		}
 		s := sha256.Sum256(data)
+		// "Get returns exactly the stored bytes": the caller owns what was returned.  The slices of the last few
+		// Gets are kept and looked at again after every later Get: if one changed, the implementation handed out
+		// memory it went on using (a pooled or shared buffer).
+		e.heldMu.Lock()
+		corrupted := ""
+		for _, h := range e.held {
+			if sha256.Sum256(h.data) != h.sum {
+				corrupted = h.key
+			}
+		}
+		if len(t) <= 3 || t[3] != "r" {
+			e.held = append(e.held, heldGet{key: key, data: data, sum: s})
+			if len(e.held) > 4 {
+				e.held = e.held[1:]
+			}
+		}
+		e.heldMu.Unlock()
+		if corrupted != "" {
+			return fmt.Sprintf("val %d:%s RETURNED-SLICE-OF-EARLIER-GET-CHANGED(%s)", len(data), hex.EncodeToString(s[:6]), hex.EncodeToString([]byte(corrupted)))
+		}
 		return fmt.Sprintf("val %d:%s", len(data), hex.EncodeToString(s[:6]))
 	case "keys":
 		st, ok := e.store(atoi(t[1]))
